@@ -374,7 +374,8 @@ def expression_probes(chk: Check, only=None):
 
     def scheme_with(extra: dict, poke=None):
         sch, _ = lat_unlinked(with_fault=False)
-        d = {"p": [["1", 1.0], ["2", 2.0], ["3", 0.5]], "s": [["1", 2.0]], "r": [["1", 0.5], ["2", 1.5]]}
+        d = {"e": [["a", {"expr": "$e.b * 1.0"}], ["b", {"expr": "$p.3 + 0.0"}]],
+             "p": [["1", 1.0], ["2", 2.0], ["3", 0.5]], "s": [["1", 2.0]], "r": [["2", 1.5]]}
         d.update(extra)
         sch.parameters = Parameters.from_dict(d)
         sch.maximum_number_function_evaluations = 3
